@@ -20,19 +20,24 @@ CLAIMED = {
          'side effects, advance), the time axis, storage cadence and cutoff; TLC checks that P refines the textbook Euler/Heun '
          'iterates (layer M) for every (model, T, dt, dts, cutoff, solver, vectorize) case within the bounds, then every case is '
          'run through CircuitTemplate.run in several exact time-scale / precision / cutoff-placement variants and index and rows '
-         'are compared with ==. Adaptive solver: polynomial chain models with closed-form solution (tolerance).',
+         'are compared with ==. Adaptive solver: polynomial chain models with closed-form solution (tolerance). Code -> spec: every '
+         'right-hand-side call of real runs is logged through the public decorator= keyword (step counter, state passed in, slope '
+         'returned, returned rows) and TLC validates each log against the actions of Solver.tla (spec/trace/TraceSolver.tla); a '
+         'corrupted log must be rejected at the corrupted event.',
     note='Exact integer/dyadic regime only; bounds: <= 12 steps, store <= 3, 5 linear models; T a multiple of dts (else known '
          'finding D21, pinned); accuracy clause for adaptive solvers only on polynomial models.',
-    technique='TLA+ solver-loop spec, TLC exhaustive over configuration lattice, exact replay through run()',
+    technique='TLA+ solver-loop spec, TLC exhaustive over configuration lattice, exact replay through run(), TLC trace validation of recorded RHS calls',
     ref='6/C03'),
  'C09': dict(
     text='spec/Solver.tla delay pass + ring buffers (which source variables get a buffer, which slot an edge reads, roll per RHS '
          'call) checked by TLC against the delayed recurrence for every ordered edge list (<= 2/3 edges, lags 0,2,3,4, two '
          'sources, two targets, vectorize on/off, merged or separate node kinds, node-and-edge and Population/Connectivity form); '
-         'every case replayed through run(solver=euler/heun) with exact comparison, delay jitter +-dt/4 and time rescaling.',
+         'every case replayed through run(solver=euler/heun) with exact comparison, delay jitter +-dt/4 and time rescaling; the '
+         'right-hand-side calls of real runs (logged through decorator=) are validated by TLC against the per-call ring-buffer '
+         'actions of Solver.tla (spec/trace/TraceSolver.tla).',
     note='Known findings D06, D07 are matched against the exact prediction of the deviating model; D36 pinned and excluded by '
          'constraint; population form restricted to one lag per source variable (D37/D38) and >= 2 target units (D27).',
-    technique='TLA+ ring-buffer/delay-pass spec, TLC exhaustive over edge lists, exact replay through run()',
+    technique='TLA+ ring-buffer/delay-pass spec, TLC exhaustive over edge lists, exact replay through run(), TLC trace validation of recorded RHS calls',
     ref='6/C09'),
 
  'C08': dict(
@@ -40,7 +45,10 @@ CLAIMED = {
          'interpolation on linspace(0,T,N) with clamping, on the half-knot lattice) with TLC-checked invariants; every case '
          '(input on one node / different inputs on merged nodes / broadcast, with and without converging edges, euler and heun, '
          'vectorize on/off, sampling 1-2) is run with the input given as (N,), (N,1), (N,n) and broadcast arrays and compared '
-         'exactly; the adaptive form is checked on the function returned by get_run_func at every knot, midpoint and outside [0,T].',
+         'exactly; the adaptive form is checked on the function returned by get_run_func at every knot, midpoint and outside [0,T]. '
+         'Routing of an (N,n) input addressed by a wildcard: spec/Paths.tla RoutingM (column i drives the i-th resolved node) vs '
+         'RoutingP (_add_input edges with source_idx, _group_edges index lists paired positionally), TLC-checked over node kinds '
+         'that share the target operator x declaration orders x hierarchy x every wildcard pattern; every case is run.',
     note='Default backend only (other backends: C02); hierarchy levels of the input node are exercised in C06/C17 only; exact regime.',
     technique='TLA+ spec of input lookup/interpolation, TLC enumeration, exact replay through run() and get_run_func()',
     ref='6/C08'),
@@ -64,8 +72,12 @@ CLAIMED = {
          'remembers from its first compile. TLC checks HistoryIndependent for every history within the bound over a universe '
          'containing every collision C13 names (Dev={}), and each named deviation is shown to violate it. One behaviour per '
          'distinct abstract state is replayed in a single fresh process; the linear field and initial state of the returned '
-         'function are compared exactly with the meaning of the template (layer M), then with the deviating model (known findings).',
-    note='Known findings D08, D40 matched against exact predictions; D09 class excluded by constraint with pinned reproducers; '
+         'function are compared exactly with the meaning of the template (layer M), then with the deviating model (known findings). '
+         'The alphabet includes from_yaml of a circuit that lives in a YAML file (template_cache by path), pyrates.clear(model), '
+         'clear_frontend_caches and compiles with a user decorator (compiled-module cache); the YAML histories are explored to depth 6 '
+         'with one behaviour per abstract state and sequence of (call kind, clear flag) - path coverage; action properties '
+         'LoadYieldsFile and ClearModelClears.',
+    note='Known findings D08, D23, D40 matched against exact predictions; D09 class excluded by constraint with pinned reproducers; '
          'default backend; universe of 3 operators / 4 node templates / 3 circuits; histories <= 2 exhaustive + sampled to depth 4 '
          '(quick), <= 3 exhaustive + depth 6 (thorough).',
     technique='TLA+ API-level state machine with caches, TLC exhaustive over call histories, replay into one process per history',
@@ -170,7 +182,7 @@ CLAIMED = {
          'state before the start): TLC checks that P refines the delayed recurrence with constant pre-history and every case (1-3-step '
          'delays, one or two nodes, euler/heun, sampling 1-3, vectorize on/off) is run and compared exactly; (b) update/query logs of '
          'the real DDEHistory object recorded through the decorator keyword during these runs are validated by TLC against '
-         'DDEHistory.tla; (c) models with past() leaves from Jacobian.tla are compiled (fixed-step and adaptive, past() and x(t-tau) '
+         'DDEHistory.tla, and the right-hand-side calls themselves (step counter, state, slope) against Solver.tla (TraceSolver.tla); (c) models with past() leaves from Jacobian.tla are compiled (fixed-step and adaptive, past() and x(t-tau) '
          'notation, parameter and literal delays) and called with a recording hist: the value must equal the tree evaluated with '
          'component x of hist(t - tau) and the query times must be exactly t - tau in time units; (d) adaptive run vs the exact '
          'method-of-steps solution on [0, 3 tau).',
